@@ -58,7 +58,8 @@ func zzBuild9(layout int, ds *zzDag, chunks [][]byte, width int, prefix cid.Pref
 	return nd
 }
 
-var zzOps9 = []string{"Read", "CtxReadFull", "Seek", "WriteTo"}
+// OPLO=1 leaves out CtxReadFull (Read is CtxReadFull with the reader's own context)
+var zzOps9 = []string{"CtxReadFull", "Read", "Seek", "WriteTo"}
 
 // HarnessC09Ops: K operations on the UnixFS reader of a small multi-leaf file, each compared with the standard
 // library's bytes.Reader over the file content.
